@@ -4,6 +4,7 @@ import (
 	"bytes"
 	"fmt"
 	"sort"
+	"strings"
 	"time"
 )
 
@@ -38,7 +39,7 @@ type CompKey struct{ Tid, Eid uint32 }
 type MSession struct {
 	ID   string
 	UUID string
-	Seq  int // creation order
+	Seq  int       // creation order
 	Born time.Time // fake time of creation: the frame worker ticks at Born + k*frame
 
 	Members  map[uint32]int // pid -> slot
@@ -205,31 +206,31 @@ func (v *View) removeEntity(eid uint32) {
 }
 
 // diffView compares a replica with the model state of its session.
-func diffView(v *View, s *MSession) []string {
-	var out []string
+func diffView(v *View, s *MSession) []Diff {
+	var out []Diff
 	for p := range s.Members {
 		if !v.Parts[p] {
-			out = append(out, fmt.Sprintf("participant %d missing in view", p))
+			out = append(out, Diff{"C06,C07", fmt.Sprintf("participant %d missing in view", p)})
 		}
 	}
 	for p := range v.Parts {
 		if _, ok := s.Members[p]; !ok {
-			out = append(out, fmt.Sprintf("view has participant %d that is not a member", p))
+			out = append(out, Diff{"C06,C07", fmt.Sprintf("view has participant %d that is not a member", p)})
 		}
 	}
 	for id, e := range s.Ents {
 		ve, ok := v.Ents[id]
 		if !ok {
-			out = append(out, fmt.Sprintf("entity %d missing in view", id))
+			out = append(out, Diff{"C05,C06", fmt.Sprintf("entity %d missing in view", id)})
 			continue
 		}
 		if ve.Owner != e.Owner || ve.Flag != e.Flag || ve.Pose != e.Pose {
-			out = append(out, fmt.Sprintf("entity %d differs: view owner=%d flag=%d pose=%08x model owner=%d flag=%d pose=%08x", id, ve.Owner, ve.Flag, ve.Pose, e.Owner, e.Flag, e.Pose))
+			out = append(out, Diff{"C11,C05", fmt.Sprintf("entity %d differs: view owner=%d flag=%d pose=%08x model owner=%d flag=%d pose=%08x", id, ve.Owner, ve.Flag, ve.Pose, e.Owner, e.Flag, e.Pose)})
 		}
 	}
 	for id := range v.Ents {
 		if _, ok := s.Ents[id]; !ok {
-			out = append(out, fmt.Sprintf("view has entity %d that does not exist", id))
+			out = append(out, Diff{"C05,C06", fmt.Sprintf("view has entity %d that does not exist", id)})
 		}
 	}
 	for tid := range v.CompDef {
@@ -239,9 +240,9 @@ func diffView(v *View, s *MSession) []string {
 			}
 			vd, ok := v.Comps[k]
 			if !ok {
-				out = append(out, fmt.Sprintf("component (%d,%d) missing in view", k.Tid, k.Eid))
+				out = append(out, Diff{"C12,C13,C06", fmt.Sprintf("component (%d,%d) missing in view", k.Tid, k.Eid)})
 			} else if !bytes.Equal(vd, d) {
-				out = append(out, fmt.Sprintf("component (%d,%d) data differs: view %x model %x", k.Tid, k.Eid, vd, d))
+				out = append(out, Diff{"C12,C13,C06", fmt.Sprintf("component (%d,%d) data differs: view %x model %x", k.Tid, k.Eid, vd, d)})
 			}
 		}
 		for k := range v.Comps {
@@ -249,7 +250,7 @@ func diffView(v *View, s *MSession) []string {
 				continue
 			}
 			if _, ok := s.Comps[k]; !ok {
-				out = append(out, fmt.Sprintf("view has component (%d,%d) that does not exist", k.Tid, k.Eid))
+				out = append(out, Diff{"C12,C13,C06", fmt.Sprintf("view has component (%d,%d) that does not exist", k.Tid, k.Eid)})
 			}
 		}
 	}
@@ -258,16 +259,16 @@ func diffView(v *View, s *MSession) []string {
 			for n, a := range as {
 				va, ok := v.Actions[eid][n]
 				if !ok {
-					out = append(out, fmt.Sprintf("action (%d,%q) missing in view", eid, n))
+					out = append(out, Diff{"C16,C06", fmt.Sprintf("action (%d,%q) missing in view", eid, n)})
 				} else if va.Sec != a.Sec || va.Nano != a.Nano || !bytes.Equal(va.Data, a.Data) {
-					out = append(out, fmt.Sprintf("action (%d,%q) differs", eid, n))
+					out = append(out, Diff{"C16,C06", fmt.Sprintf("action (%d,%q) differs", eid, n)})
 				}
 			}
 		}
 		for eid, as := range v.Actions {
 			for n := range as {
 				if _, ok := s.Actions[eid][n]; !ok {
-					out = append(out, fmt.Sprintf("view has action (%d,%q) that does not exist", eid, n))
+					out = append(out, Diff{"C16,C06", fmt.Sprintf("view has action (%d,%q) that does not exist", eid, n)})
 				}
 			}
 		}
@@ -276,17 +277,43 @@ func diffView(v *View, s *MSession) []string {
 		for eid, a := range s.Assets {
 			va, ok := v.Assets[eid]
 			if !ok {
-				out = append(out, fmt.Sprintf("asset of entity %d missing in view", eid))
+				out = append(out, Diff{"C16,C06", fmt.Sprintf("asset of entity %d missing in view", eid)})
 			} else if va != a {
-				out = append(out, fmt.Sprintf("asset of entity %d differs: view %+v model %+v", eid, va, a))
+				out = append(out, Diff{"C16,C06", fmt.Sprintf("asset of entity %d differs: view %+v model %+v", eid, va, a)})
 			}
 		}
 		for eid := range v.Assets {
 			if _, ok := s.Assets[eid]; !ok {
-				out = append(out, fmt.Sprintf("view has asset for entity %d that does not exist", eid))
+				out = append(out, Diff{"C16,C06", fmt.Sprintf("view has asset for entity %d that does not exist", eid)})
 			}
 		}
 	}
-	sort.Strings(out)
+	sortDiffs(out)
 	return out
+}
+
+// Diff is one difference between an observed state and the reference, tagged
+// with the properties it speaks about.
+type Diff struct {
+	Tags string
+	Msg  string
+}
+
+func sortDiffs(d []Diff) {
+	sort.Slice(d, func(i, j int) bool { return d[i].Msg < d[j].Msg })
+}
+
+func joinDiffs(d []Diff) (tags string, msg string) {
+	seen := map[string]bool{}
+	var ts, ms []string
+	for _, x := range d {
+		for _, t := range strings.Split(x.Tags, ",") {
+			if t != "" && !seen[t] {
+				seen[t] = true
+				ts = append(ts, t)
+			}
+		}
+		ms = append(ms, x.Msg)
+	}
+	return strings.Join(ts, ","), strings.Join(ms, "; ")
 }
